@@ -26,7 +26,7 @@ COMPLEX_OPS = ["rp2xy", "xy2rp", "rp2xy_all", "xy2rp_all", "std_polar", "std_pol
 OPS = (
     ["set", "set", "get", "set_all_dict", "set_all_list", "roundtrip", "save_reload", "refresh", "refresh"]
     + COMPLEX_OPS
-    + ["set_trans_var", "set_all_fit", "minimize", "bound_cycle", "mask_block", "temp_block", "bound_math", "read_paths"]
+    + ["set_trans_var", "set_all_fit", "minimize", "bound_cycle", "bad_rebound", "mask_block", "temp_block", "bound_math", "read_paths"]
 )
 FUNCS = [None, None, None, "a+(b-a)/(1+exp(-x))"]
 
@@ -254,6 +254,7 @@ class Session:
                 log.ev("tie-refused", tie=k, err=type(e).__name__)
         # ---- bounds
         self.bounds = {}
+        self.installed = set()  # names whose bound is installed according to the HISTORY (not read from the library)
         for b in spec["bounds"]:
             cands = [n for n in self.realnames if not n.endswith("i")]
             name = cands[b["name"] % len(cands)]
@@ -270,6 +271,7 @@ class Session:
                 log.count("probe.bound_refused_by_library")
                 continue
             self.bounds[name] = (b["lo"], b["hi"], b.get("func"))
+            self.installed.add(name)
             log.ev("bound", name=name, lo=b["lo"], hi=b["hi"], func=b.get("func"))
         # values of bounded parameters start inside their range (a configuration does that)
         for name, b in self.bounds.items():
@@ -448,7 +450,7 @@ class Session:
             v = op["v"]
             fit = op.get("fit", True)
             vm.set(n, v, val_in_fit=fit)
-            b = self.bounds.get(n) if n in vm.bnd_dic else None
+            b = self.bounds.get(n) if n in self.installed else None
             y = ref_x2y(b, v) if (b and fit) else v
             self.val[self.gid[n]] = y
             self.changing += 1
@@ -463,7 +465,7 @@ class Session:
             fit = op.get("fit", True)
             got = float(vm.get(n, val_in_fit=fit))
             y = self.val[self.gid[n]]
-            if n in vm.bnd_dic and fit:
+            if n in self.installed and fit:
                 b = self.bounds[n]
                 # x such that x2y(x) == clip(y): check through the forward map (no branch assumption)
                 back = ref_x2y(b, got)
@@ -520,7 +522,7 @@ class Session:
             if heads and len(xs) == len(heads):
                 vm.set_trans_var(list(xs))
                 for n, x in zip(heads, xs):
-                    y = ref_x2y(self.bounds[n], x) if n in vm.bnd_dic else x
+                    y = ref_x2y(self.bounds[n], x) if n in self.installed else x
                     got = float(vm.variables[n].numpy())
                     if abs(got - y) > 1e-10 * (1 + abs(y)):
                         self.fail("bound-x2y", k, "set_trans_var stored %r for %s, transformation of %r gives %r" % (got, n, x, y))
@@ -533,7 +535,7 @@ class Session:
             if heads and len(xs) == len(heads):
                 vm.set_all(list(xs), val_in_fit=True)
                 for n, x in zip(heads, xs):
-                    y = ref_x2y(self.bounds[n], x) if n in vm.bnd_dic else x
+                    y = ref_x2y(self.bounds[n], x) if n in self.installed else x
                     got = float(vm.variables[n].numpy())
                     if abs(got - y) > 1e-10 * (1 + abs(y)):
                         self.fail("bound-x2y", k, "set_all(val_in_fit=True) stored %r for %s, transformation of %r gives %r" % (got, n, x, y))
@@ -553,6 +555,32 @@ class Session:
                         vm.set_bound({n: (b[0], b[1])}, func=b[2])
                 self.expect_all(k + ".set")
                 log.count("probe.bound_cycle")
+        elif k == "bad_rebound":
+            # a replacement bound that the library must reject (lower > upper, or an expression SymPy cannot
+            # parse): the rejected call may not change anything - the old bound stays installed
+            names = sorted(self.installed)
+            if names and not self.mask:
+                n = names[op["i"] % len(names)]
+                try:
+                    if op["i"] % 2:
+                        vm.set_bound({n: (5.0, -5.0)}, overwrite=True)
+                    else:
+                        vm.set_bound({n: (self.bounds[n][0], self.bounds[n][1])}, func="(b-a)*sin(x))+a", overwrite=True)
+                    log.count("probe.bad_rebound_accepted")
+                    # accepted after all: the reference follows whatever is installed now (no claim)
+                    self.installed.discard(n)
+                    if n in vm.bnd_dic:
+                        vm.bnd_dic.pop(n)
+                except Exception:
+                    log.count("fault.rejected_set_bound")
+                self.expect_all(k)
+                # probe the coordinate convention through the public read path
+                if n in self.installed:
+                    x = float(vm.get(n, val_in_fit=True))
+                    y = self.val[self.gid[n]]
+                    back = ref_x2y(self.bounds[n], x)
+                    if abs(back - clip(self.bounds[n], y)) > 1e-9 * (1 + abs(y)):
+                        self.fail("bound-inverse", k, "after a REJECTED set_bound on %s the old bound %s is gone: get() returns %r for the stored value %r" % (n, self.bounds[n], x, y))
         elif k == "bound_math":
             self.do_bound_math(op)
         elif k == "read_paths":
@@ -623,8 +651,10 @@ class Session:
     def do_complex(self, op):
         vm = self.vm
         k = op["k"]
-        if not self.cplx or self.mask:
+        if not self.cplx:
             return
+        if self.mask:
+            return self.do_complex_masked(op)
         c = self.cplx[op["i"] % len(self.cplx)]
         before = {kk: float(v) for kk, v in vm.get_all_dic().items()}
         zb = {cc: self.zval(cc, before) for cc in self.cplx}
@@ -675,6 +705,57 @@ class Session:
                 if o != cc and vm.variables[o + "r"] is vm.variables[cc + "r"]:
                     comps += [o + "r", o + "i"]
         self.resync(comps, k, allow_fixed=True)
+
+    def stored(self):
+        """stored (unmasked) component values: the public `variables` mapping"""
+        return {n: float(self.vm.variables[n].numpy()) for n in self.realnames}
+
+    def do_complex_masked(self, op):
+        """a coordinate switch / standardisation while a mask is active: a representation change of the STORED
+        value - the mask only overrides reads - so the stored complex value must survive it"""
+        vm = self.vm
+        k = op["k"]
+        shared = set(n for pair in self.share_r for n in pair)
+        if self.tie_overlap or shared:
+            return
+        before = self.stored()
+        zb = {cc: self.zval(cc, before) for cc in self.cplx}
+        c = self.cplx[op["i"] % len(self.cplx)]
+        targets = list(self.cplx)
+        if k == "rp2xy":
+            vm.rp2xy(c)
+            targets = [c]
+        elif k == "xy2rp":
+            vm.xy2rp(c)
+            targets = [c]
+        elif k == "rp2xy_all":
+            vm.rp2xy_all()
+        elif k == "xy2rp_all":
+            vm.xy2rp_all()
+        elif k == "std_polar":
+            vm.std_polar(c)
+            targets = [c]
+        elif k == "std_polar_all":
+            vm.std_polar_all()
+        elif k == "standard_complex":
+            vm.standard_complex()
+        elif k == "trans_params":
+            vm.trans_params(op.get("polar", True))
+        self.log.count("probe.coordinate_switch_inside_mask")
+        after = self.stored()
+        for cc in targets:
+            za = self.zval(cc, after)
+            if abs(za - zb[cc]) > 1e-12 * (1 + abs(zb[cc])):
+                self.log.fail("complex-value-preserved", "%s|complex-value-preserved|inside-mask" % k, "%s inside a mask_params block changed the STORED complex value of %s from %r to %r (mask %s)" % (k, cc, zb[cc], za, sorted(self.mask)), step=self.step_no)
+                raise Failure()
+        # reference: adopt the new component values of the switched parameters; everything else unchanged
+        moved = set(self.gid[cc + s] for cc in targets for s in ("r", "i"))  # tie groups of the switched components
+        for n in self.realnames:
+            g = self.gid[n]
+            if g in moved:
+                self.val[g] = after[n]
+            elif after[n] != before[n]:
+                self.fail("value-as-assigned", k, "%s changed although only %s were switched (inside a mask block)" % (n, targets))
 
     def do_minimize(self, op):
         tf, np, vm = self.tf, self.np, self.vm
@@ -760,15 +841,20 @@ class Session:
                         self.val[self.gid[n]] = v
                 self.expect_all(k + ".enter")
                 for b in op.get("body", []):
-                    if b["k"] in ("set", "set_all_dict", "set_all_list", "set_trans_var", "set_all_fit", "minimize", "refresh", "bound_cycle") or b["k"] in COMPLEX_OPS:
-                        continue  # no permanent changes inside a block (the property does not say what a block must do with them)
+                    if b["k"] in ("set", "set_all_dict", "set_all_list", "set_trans_var", "set_all_fit", "minimize", "refresh", "bound_cycle", "bad_rebound"):
+                        continue  # no assignments inside a block (the property does not say what a block must do with them)
+                    if b["k"] in COMPLEX_OPS and k != "mask_block":
+                        continue
                     self.run_op(b, depth + 1)
                 if op.get("raise"):
                     self.log.count("fault.user_raise_in_block")
                     raise UserRaise()
         except UserRaise as e:
             exc = e
-        self.val = saved_val
+        if k == "mask_block":
+            pass  # nothing was assigned inside; coordinate switches updated self.val for the switched components
+        else:
+            self.val = saved_val
         self.mask = saved_mask
         self.changing += 1
         self.log.ev("block-exit", k=k, exc=exc is not None)
